@@ -602,7 +602,7 @@ def dump(m, live=True):
         "teams": {},
         "workplaces": {},
     }
-    for t in sorted(p.workflow.task_list, key=lambda x: x.ID):
+    for t in sorted(p.workflow.task_list, key=lambda x: (type(x.ID).__name__, x.ID)):
         e = {
             "state_log": [int(s) for s in t.state_record_list],
             "rem_log": [float(x) for x in t.remaining_work_amount_record_list],
@@ -742,7 +742,7 @@ def canon(p, extra=()):
     """
     t0 = p.time
     ts = []
-    for t in sorted(p.workflow.task_list, key=lambda x: x.ID):
+    for t in sorted(p.workflow.task_list, key=lambda x: (type(x.ID).__name__, x.ID)):
         ts.append(
             (
                 t.ID,
